@@ -38,7 +38,7 @@ def _symbols(e, cache):
     """names of the uninterpreted symbols occurring in e"""
     i = e.get_id()
     if i in cache:
-        return cache[i]
+        return cache[i][1]
     out = set()
     seen = set()
     todo = [e]
@@ -56,21 +56,30 @@ def _symbols(e, cache):
             if d.kind() == z3.Z3_OP_UNINTERPRETED:
                 out.add(d.name())
             todo.extend(x.children())
-    cache[i] = out
+    cache[i] = (e, out)  # keeping `e` alive keeps its id from being reused
     return out
 
 
 _SYMCACHE = {}
 
 
+HUB_PREFIXES = ("label.", "gridpoint.", "coordinate.", "objective.", "feasible.", "exp", "log", "euler_e", "-inf", "+inf", "nan", "mul!abs", "draw")
+HUB_SUFFIXES = (".start", ".stop", ".n")
+HUB_NAMES: set = set()  # names of uninterpreted model functions (registered by K.modelfunc)
+
+
+def _is_hub(name):
+    return name in HUB_NAMES or name.startswith(HUB_PREFIXES) or name.endswith(HUB_SUFFIXES)
+
+
 def relevant(hyps, goal):
-    """cone of influence: hypotheses connected to the goal through shared *fresh* symbols (Skolem
-    functions and other per-call symbols, recognisable by '!'); named symbols (user functions, grid and
-    label functions, sizes) are hubs that do not propagate relevance.  Hypotheses without fresh symbols
-    are always kept.  Dropping hypotheses is sound for `unsat`."""
-    fresh = lambda ss: {x for x in ss if "!" in x}
-    syms = fresh(_symbols(goal, _SYMCACHE))
-    hs = [(h, fresh(_symbols(h, _SYMCACHE))) for h in hyps]
+    """cone of influence: hypotheses connected to the goal through shared symbols.  Symbols that occur
+    almost everywhere (user model functions, grid/label functions, grid sizes and bounds, exp/log) are
+    hubs that do not propagate relevance.  Hypotheses made of hub symbols only are always kept.
+    Dropping hypotheses is sound for `unsat`."""
+    nonhub = lambda ss: {x for x in ss if not _is_hub(x)}
+    syms = nonhub(_symbols(goal, _SYMCACHE))
+    hs = [(h, nonhub(_symbols(h, _SYMCACHE))) for h in hyps]
     keep = [not ss for _, ss in hs]
     changed = True
     while changed:
@@ -91,13 +100,16 @@ def discharge(hyps, goal, timeout_ms=None, want_model=False, portfolio=True, ful
     g = z3.simplify(goal)
     if z3.is_true(g):
         return Result("proved", "simplifier", 0.0)
+    pre = 0.0
     if not full:
         sub = relevant(hyps, goal)
         if len(sub) < len(hyps):
-            r = discharge(sub, goal, timeout_ms, want_model, portfolio=False, full=True)
+            # short budget: the reduced problem either goes through quickly or is abandoned
+            r = discharge(sub, goal, min(timeout_ms, 6000), want_model, portfolio=False, full=True)
             if r.status == "proved":
                 return r
-    t0 = time.time()
+            pre = r.secs
+    t0 = time.time() - pre
     # quick first attempt: E-matching only with the explicit patterns
     s0 = _solver(hyps, goal, 1500)
     s0.set("smt.mbqi", False)
